@@ -1255,11 +1255,12 @@ mod engine {
         pub steps: usize,
         pub dead: bool,           // an unexpected panic left a slot in an unknown state: the script stops
         pub ht: (i64, i64),
+        pub greedy_above: usize,
     }
     impl<'a> Run<'a> {
         pub fn new(s: &'a mut Sink, ht: (i64, i64)) -> Self {
             s.case("eg new", "ok", false);
-            Run { s, slots: BTreeMap::new(), steps: 0, dead: false, ht }
+            Run { s, slots: BTreeMap::new(), steps: 0, dead: false, ht, greedy_above: 24 }
         }
         fn emit(&mut self, kind: &str, req: String, reply: String) {
             self.steps += 1;
@@ -1337,6 +1338,14 @@ mod engine {
         }
         pub fn nverts(&self, i: usize) -> usize { self.slots[&i].nverts() }
 
+        /// random pivot on small complexes; on larger ones the builder's rule (least fill-in `(nk-1)*(nl-1)`), because
+        /// random elimination orders make the complex dense
+        pub fn pick_pivot(&mut self, r: &mut Rng, i: usize, ps: &[(TngKey, TngKey)]) -> (TngKey, TngKey) {
+            let c = &self.slots[&i];
+            if c.nverts() <= self.greedy_above { return *r.pick(ps) }
+            *ps.iter().min_by_key(|(k, l)| (c.keys_out_from(k).count() - 1) * (c.keys_into(l).count() - 1)).unwrap()
+        }
+
         /// apply legal simplification steps chosen at random; `all`: until nothing is left
         pub fn simplify(&mut self, r: &mut Rng, i: usize, all: bool, cap: usize) {
             loop {
@@ -1348,8 +1357,9 @@ mod engine {
                 let big = c.nverts() > cap;
                 if !all && !big && r.chance(1, 7) { return }
                 // a large complex is first shrunk by eliminations
+                if nedges(c) > 2500 || c.nverts() > 400 { self.dead = true; self.s.count("eng.abandoned(too big)"); return }
                 let pick_el = !ps.is_empty() && (ls.is_empty() || (big && r.chance(3, 4)) || r.chance(1, 2));
-                if pick_el { let (k, l) = *r.pick(&ps); self.el(i, &k, &l, false); }
+                if pick_el { let (k, l) = self.pick_pivot(r, i, &ps); self.el(i, &k, &l, false); }
                 else { let (k, q) = *r.pick(&ls); self.dl(i, &k, q, false); }
             }
         }
@@ -1407,11 +1417,17 @@ mod engine {
         s.count(if red { "eng.reduced" } else { "eng.unreduced" });
         s.count(if split { "eng.split" } else { "eng.single" });
         let mut run = Run::new(s, ht);
+        run.greedy_above = if n >= 8 { 8 } else { plan.cap / 2 };
         let parts: Vec<Vec<usize>> = if split { let cut = 1 + r.below(n as u64 - 1) as usize; vec![order[..cut].to_vec(), order[cut..].to_vec()] } else { vec![order.clone()] };
         let a = if split { (r.range(-2, 2) as isize, r.range(-3, 3) as isize) } else { total };
         let shifts = [a, (total.0 - a.0, total.1 - a.1)];
         // base point: on the first part always; on the second part sometimes as well (`connect_init` accepts equal ones)
-        let bases = [base, if r.bool() { base } else { None }];
+        // (a sub-complex that contains the base edge must know the base point, otherwise it deloops the based circle
+        //  with both copies — not an operation of the reduced theory)
+        let touches = |part: &Vec<usize>| base.map(|e| part.iter().any(|&ix| data[ix].edges().contains(&e))).unwrap_or(false);
+        let b1 = if split && (touches(&parts[1]) || r.bool()) { base } else { None };
+        let b0 = if split && !touches(&parts[0]) && b1.is_some() && r.bool() { None } else { base };
+        let bases = [b0, b1];
         let mut mal_left = if plan.malformed { 3 } else { 0 };
         for (p, part) in parts.iter().enumerate() {
             run.init(p, shifts[p], bases[p]);
@@ -1441,8 +1457,9 @@ mod engine {
                 let ls = loops(&run.slots[&0], false);
                 if ls.is_empty() { break }
                 let big = run.nverts(0) > plan.cap;
-                let ps = if big || r.chance(1, 3) { pivots(&run.slots[&0]) } else { vec![] };
-                if !ps.is_empty() { let (k, l) = *r.pick(&ps); run.el(0, &k, &l, false); }
+                let ps = if big || run.nverts(0) > run.greedy_above || r.chance(1, 3) { pivots(&run.slots[&0]) } else { vec![] };
+                if nedges(&run.slots[&0]) > 2500 || run.nverts(0) > 400 { run.dead = true; run.s.count("eng.abandoned(too big)"); break }
+                if !ps.is_empty() { let (k, l) = run.pick_pivot(r, 0, &ps); run.el(0, &k, &l, false); }
                 else { let (k, q) = *r.pick(&ls); run.dl(0, &k, q, false); }
             }
             if !run.dead && red && r.chance(1, 2) { let all = r.bool(); run.simplify(r, 0, all, plan.cap); }
